@@ -25,11 +25,38 @@ pub fn trace_case(f: impl FnOnce() -> String) {
     PROGRESS.fetch_add(1, Ordering::Relaxed);
 }
 
+static OUT_PATH: Mutex<Option<String>> = Mutex::new(None);
+static PROP: Mutex<String> = Mutex::new(String::new());
+
+/// called by the allocator guard when the heap budget is exceeded or the system refuses memory
+pub fn memory_exit(live: usize, requested: usize) -> ! {
+    let case = CURRENT.try_lock().map(|g| g.clone()).unwrap_or_default();
+    let prop = PROP.try_lock().map(|g| g.clone()).unwrap_or_default();
+    let j = J::obj().set(
+        "hang",
+        J::obj().set("property", J::s(&prop)).set("case", J::s(case)).set("reason", J::s("memory")).set("live_heap_bytes", J::i(live)).set("requested_bytes", J::i(requested)).set("seconds_without_progress", J::i(0)).set("evaluation", J::i(PROGRESS.load(Ordering::Relaxed))),
+    );
+    let out = OUT_PATH.try_lock().ok().and_then(|g| g.clone());
+    match out {
+        Some(f) => {
+            let _ = std::fs::write(f, j.render());
+        }
+        None => println!("{}", j.render()),
+    }
+    std::process::exit(3);
+}
+
 pub fn watchdog_off() {
     WATCHDOG_OFF.store(true, Ordering::Relaxed);
 }
 
 pub fn start_watchdog(out: Option<String>, prop: String, secs: u64) {
+    if let Ok(mut g) = OUT_PATH.lock() {
+        *g = out.clone();
+    }
+    if let Ok(mut g) = PROP.lock() {
+        *g = prop.clone();
+    }
     std::thread::spawn(move || {
         let mut last = PROGRESS.load(Ordering::Relaxed);
         let mut since = std::time::Instant::now();
